@@ -1,0 +1,97 @@
+//go:build verif
+
+// Contracts for package phase1 (comment-only; compiled to nothing).
+
+package phase1
+
+// edgesOK(g): the edge list has no nil entry, no repeated entry, every edge has two non-nil ends, and the edge
+// list's backing array is allocated and is not the backing array of any adjacency list
+//@ spec edgesOK(g *DGraph) bool =
+//@   (forall i int :: 0 <= i && i < len(g.Edges) ==> g.Edges[i] != nil && g.Edges[i].From != nil && g.Edges[i].To != nil)
+//@   && (forall i int, j int :: 0 <= i && i < j && j < len(g.Edges) ==> g.Edges[i] != g.Edges[j])
+//@   && allocatedArr(g.Edges)
+//@   && (forall n *Node :: arr(n.In) != arr(g.Edges) && arr(n.Out) != arr(g.Edges))
+
+// The pre-pass may reverse an edge only if an earlier edge of the list runs between the same two nodes in the
+// opposite direction (an acyclic graph has no such pair, so nothing is reversed: lemma C14_dag_untouched).
+//@ func removeTwoNodeCycles
+//@   requires g != nil && edgesOK(g)
+//@   modifies Edge.From, Edge.To, Edge.IsReversed, Node.In, Node.Out, Elems[*Edge], alloc, map[[2]*Node]bool
+//@   ensures[same_edges] len(g.Edges) == old(len(g.Edges)) && (forall i int :: 0 <= i && i < len(g.Edges) ==> g.Edges[i] == old(g.Edges[i]))
+//@   ensures[only_antiparallel] forall i int :: 0 <= i && i < len(g.Edges) && g.Edges[i].IsReversed != old(g.Edges[i].IsReversed) ==>
+//@       (exists j int :: 0 <= j && j < i && old(g.Edges[j].From) == old(g.Edges[i].To) && old(g.Edges[j].To) == old(g.Edges[i].From))
+//@   ensures[flip] forall i int :: 0 <= i && i < len(g.Edges) ==>
+//@       (g.Edges[i].IsReversed != old(g.Edges[i].IsReversed) ? (g.Edges[i].From == old(g.Edges[i].To) && g.Edges[i].To == old(g.Edges[i].From))
+//@                                                            : (g.Edges[i].From == old(g.Edges[i].From) && g.Edges[i].To == old(g.Edges[i].To)))
+//@   loop range(g.Edges)#1 index i
+//@     invariant seen != nil
+//@     invariant forall k int :: 0 <= k && k < len(g.Edges) ==> g.Edges[k] == old(g.Edges[k])
+//@     invariant forall a *Node, b *Node :: seen[arr2(a, b)] ==> (exists j int :: 0 <= j && j < i && g.Edges[j].From == a && g.Edges[j].To == b)
+//@     invariant len(rev) <= i && (forall k int :: 0 <= k && k < len(rev) ==>
+//@         (exists m int :: 0 <= m && m < i && rev[k] == g.Edges[m]
+//@            && (exists j int :: 0 <= j && j < m && g.Edges[j].From == g.Edges[m].To && g.Edges[j].To == g.Edges[m].From)))
+//@     invariant forall k int, l int :: 0 <= k && k < l && l < len(rev) ==> rev[k] != rev[l]
+//@     invariant forall k int :: 0 <= k && k < len(rev) ==> (exists m int :: 0 <= m && m < i && rev[k] == g.Edges[m])
+//@     invariant rev == nil || (allocatedArr(rev) && arr(rev) != arr(g.Edges) && (forall n *Node :: arr(n.In) != arr(rev) && arr(n.Out) != arr(rev)))
+//@   loop range(rev)#1 index c
+//@     invariant len(g.Edges) == old(len(g.Edges)) && (forall k int :: 0 <= k && k < len(g.Edges) ==> g.Edges[k] == old(g.Edges[k]) && g.Edges[k].From != nil && g.Edges[k].To != nil)
+//@     invariant forall k int :: 0 <= k && k < len(rev) ==> rev[k] == loopold(rev[k])
+//@     invariant forall f *Edge :: (exists k int :: 0 <= k && k < c && rev[k] == f)
+//@         ? (f.IsReversed == !old(f.IsReversed) && f.From == old(f.To) && f.To == old(f.From))
+//@         : (f.IsReversed == old(f.IsReversed) && f.From == old(f.From) && f.To == old(f.To))
+//@     invariant allocatedArr(g.Edges) && (forall n *Node :: arr(n.In) != arr(g.Edges) && arr(n.Out) != arr(g.Edges))
+//@     invariant rev == nil || (allocatedArr(rev) && arr(rev) != arr(g.Edges) && (forall n *Node :: arr(n.In) != arr(rev) && arr(n.Out) != arr(rev)))
+
+// ---------------------------------------------------------------------------
+// acyclic inputs are recognised: with a ghost topological numbering the DFS never meets a node that is on its stack
+
+//@ func visit
+//@   requires n != nil && visited != nil && finished != nil && visited != finished && outWF() && acyclicByTopo()
+//@   requires forall x *Node :: visited[x] ==> topo(x) > topo(n)
+//@   decreases topo(n)
+//@   modifies map[*Node]bool
+//@   ensures !result
+//@   ensures forall x *Node :: visited[x] == old(visited[x])
+//@   loop range(n.Out)#1 index i
+//@     invariant forall x *Node :: visited[x] == (x == n || old(visited[x]))
+
+//@ func hasCycles
+//@   requires g != nil && outWF() && acyclicByTopo() && (forall i int :: 0 <= i && i < len(g.Nodes) ==> g.Nodes[i] != nil)
+//@   ensures !result
+//@   loop range(g.Nodes)#1 index i
+//@     invariant visited != nil && finished != nil && (forall x *Node :: !visited[x])
+
+// ---------------------------------------------------------------------------
+// depth-first breaker: the active set is exactly the DFS stack (restored on return), nodes are never un-visited,
+// and every edge put on the reversal list during a call is a non-self-loop out-edge whose target was on the stack
+// of the caller or was first visited during this call (so: never an edge into a tree finished earlier).
+// "Target active at the moment of the append" itself is a temporal fact; see DESIGN.md C14.
+//@ func depthFirstProcessor.visit
+//@   requires p != nil && node != nil && p.visited != nil && p.active != nil && p.visited != p.active && outWF()
+//@   requires forall x *Node :: p.active[x] ==> p.visited[x]
+//@   requires forall m *Node :: arr(m.Out) == 0 || arr(m.Out) != arr(p.reversable)
+//@   ensures outWF() && (forall m *Node :: arr(m.Out) == 0 || arr(m.Out) != arr(p.reversable))
+//@   modifies map[*Node]bool, depthFirstProcessor.reversable, Elems[*Edge], alloc
+//@   ensures forall x *Node :: p.active[x] == old(p.active[x])
+//@   ensures forall x *Node :: old(p.visited[x]) ==> p.visited[x]
+//@   ensures p.visited[node]
+//@   ensures len(p.reversable) >= old(len(p.reversable))
+//@   ensures forall k int :: 0 <= k && k < old(len(p.reversable)) ==> p.reversable[k] == old(p.reversable[k])
+//@   ensures[backish] forall k int :: old(len(p.reversable)) <= k && k < len(p.reversable) ==>
+//@       p.reversable[k] != nil && p.reversable[k].To != p.reversable[k].From
+//@       && (old(p.active[now(p.reversable[k].To)]) || (p.visited[p.reversable[k].To] && !old(p.visited[now(p.reversable[k].To)])))
+//@   ensures p.visited == old(p.visited) && p.active == old(p.active)
+//@   ensures p.reversable == nil || allocatedArr(p.reversable)
+//@   requires p.reversable == nil || allocatedArr(p.reversable)
+//@   loop range(node.Out)#1 index i
+//@     invariant p.visited == old(p.visited) && p.active == old(p.active)
+//@     invariant outWF() && (forall m *Node :: arr(m.Out) == 0 || arr(m.Out) != arr(p.reversable))
+//@     invariant forall x *Node :: p.active[x] == (x == node || old(p.active[x]))
+//@     invariant forall x *Node :: old(p.visited[x]) ==> p.visited[x]
+//@     invariant p.visited[node] && !old(p.visited[node])
+//@     invariant len(p.reversable) >= old(len(p.reversable)) && (p.reversable == nil || allocatedArr(p.reversable))
+//@     invariant forall k int :: 0 <= k && k < old(len(p.reversable)) ==> p.reversable[k] == old(p.reversable[k])
+//@     invariant forall k int :: old(len(p.reversable)) <= k && k < len(p.reversable) ==> p.reversable[k] != nil
+//@     invariant forall k int :: old(len(p.reversable)) <= k && k < len(p.reversable) ==> p.reversable[k].To != p.reversable[k].From
+//@     invariant forall k int :: old(len(p.reversable)) <= k && k < len(p.reversable) ==>
+//@       (old(p.active[now(p.reversable[k].To)]) || (p.visited[p.reversable[k].To] && !old(p.visited[now(p.reversable[k].To)])))
